@@ -26,6 +26,23 @@ def fam_tree(maxops):
     }
 
 
+def fam_gensteps(maxops):
+    """events fired from later steps of generator handlers, nested completion requests"""
+    return {
+        'comps': {'1': {'chan': 'a'}},
+        'handlers': {
+            '1': _h(1, ['x0'], 0, {'x0': [['yield', None], ['fire', {'name': 'x1', 'flags': 4}], ['yield', None], ['ret', 1]]}),
+            '2': _h(1, ['x1'], 0, {'x1': [['fire', {'name': 'x2'}]]}),
+            '3': _h(1, ['x2'], 0, {'x2': [['yield', None], ['fire', {'name': 'x3'}], ['cancel_last'], ['ret', 2]]}),
+            '4': _h(1, ['x3'], 0, {'x3': [['ret', 3]]}),
+            '5': _h(1, ['x2'], -1, {'x2': [['yield', None], ['raise']]}),
+            '6': _h(1, ['x0_complete', 'x1_complete'], 0, {}),
+        },
+        'ext': [{'name': 'x0', 'flags': 4}, {'name': 'x1', 'flags': 4}],
+        'ops': ['fire', 'tick', 'cancel', 'rmh'], 'pre': [], 'maxops': maxops, 'firers': [1], 'flushers': [1], 'dyn': [3, 5],
+    }
+
+
 RANDOM_OPTS = {
     'ncomp': 2, 'shapes': ['plain', 'class'], 'nhandlers': (3, 8), 'prios': [-1, 0, 0, 1],
     'kinds': ['named', 'named', 'named', 'catchall'], 'nnames': 4,
@@ -104,9 +121,15 @@ def run(tier, replay=None):
         'families': [
             {'name': 'tree', 'programs': [fam_tree(3 if quick else 4)], 'hist_programs': [fam_tree(2 if quick else 3)],
              'hist_cap_quick': 800},
+            {'name': 'generator-steps', 'programs': [fam_gensteps(2 if quick else 3)], 'hist_programs': [fam_gensteps(2 if quick else 3)],
+             'hist_cap_quick': 600},
         ],
         'teeth': [{'name': 'tree/CancelLeak', 'programs': [fam_tree(2)], 'variants': {'CancelLeak': True},
-                   'expect': {'CompleteDelivered', 'ConformsC05'}}],
+                   'expect': {'CompleteDelivered', 'ConformsC05'}},
+                  {'name': 'generator-steps/StepUntracked', 'programs': [fam_gensteps(2)], 'variants': {'StepUntracked': True},
+                   'expect': {'CompleteDelivered', 'ConformsC05'}},
+                  {'name': 'generator-steps/GenErrorHang', 'programs': [fam_gensteps(2)], 'variants': {'GenErrorHang': True},
+                   'expect': {'CompleteDelivered', 'ConformsC05', 'ConformsC04', 'NoTaskResidue'}}],
         'random': gen_random, 'witness': witness, 'mutators': mutate,
         'nontrivial': lambda p, ls: any(ln['k'] == 'fire' and ln['f'] & 4 for ln in ls),
         'rule': 'cases = (program, external history): every complete history TLC generates for the event-tree family (fan-out 2, depth 3, '
